@@ -208,6 +208,9 @@ func (a *ACM) ParseACMInfo() error {
 	if err := binary.Read(buf, binary.LittleEndian, &a.Chipsets.Count); err != nil {
 		return err
 	}
+	if uint64(a.Chipsets.Count)*uint64(binary.Size(ChipsetID{})) > uint64(buf.Len()) {
+		return fmt.Errorf("ACM chipset ID list announces %d entries, only %d bytes left", a.Chipsets.Count, buf.Len())
+	}
 	a.Chipsets.IDList = make([]ChipsetID, a.Chipsets.Count)
 	if err := binary.Read(buf, binary.LittleEndian, &a.Chipsets.IDList); err != nil {
 		return err
@@ -218,6 +221,9 @@ func (a *ACM) ParseACMInfo() error {
 	}
 	if err := binary.Read(buf, binary.LittleEndian, &a.Processors.Count); err != nil {
 		return err
+	}
+	if uint64(a.Processors.Count)*uint64(binary.Size(ProcessorID{})) > uint64(buf.Len()) {
+		return fmt.Errorf("ACM processor ID list announces %d entries, only %d bytes left", a.Processors.Count, buf.Len())
 	}
 	a.Processors.IDList = make([]ProcessorID, a.Processors.Count)
 	if err := binary.Read(buf, binary.LittleEndian, &a.Processors.IDList); err != nil {
